@@ -19,7 +19,7 @@ func init() {
 				if tier == "thorough" {
 					nv, nr = 8, 16
 				}
-				vs := thin(all, nv)
+				vs := pick(eco, all, nv-2)
 				bounds := thin(rangeSafe(eco, all), 3)
 				var rs []string
 				if len(bounds) > 0 {
